@@ -94,8 +94,9 @@ OBS = {
             lambda r, a: m_sel(r, a[0], a[1], a[2])[1]),
     "rslice": (lambda x, a: CTX.lib.ragged_slice(x, np.array(a[0], dtype=np.int64), np.array(a[1], dtype=np.int64)).tolist(), lambda r, a: [q[s:e] for q, s, e in zip(r, a[0], a[1])]),
 }
-# observations after which the receiver is certainly materialised (used for hazard tracking; conservative)
-MATERIALISING = {"tolist", "iter", "ravel", "repr", "sum1", "npsum1", "sumall", "nonzero", "add1", "eqself", "cumsum", "sort", "diff", "zeros", "concatself", "astype", "save"}
+# observations after which the receiver is certainly materialised (used for hazard tracking; conservative:
+# repr/str of an array with more than 100 cells print a *selection* of it and leave the array itself lazy)
+MATERIALISING = {"tolist", "iter", "ravel", "sum1", "npsum1", "sumall", "nonzero", "add1", "eqself", "cumsum", "sort", "diff", "zeros", "concatself", "astype", "save"}
 READ_OPS = [k for k in OBS]
 # observations whose result on float data (NaN, inf, -0.0, non-dyadic values) is defined element by element, hence exactly predictable
 FLOAT_OBS = ["tolist", "iter", "ravel", "meta", "repr", "str", "row", "elem", "rowscol", "ell", "empty", "maskidx", "subset", "padded", "nonzero", "add1", "sel", "rslice",
